@@ -60,7 +60,9 @@ def ops_alphabet(nslots):
         for doc in range(len(DOCS)):
             ops.append(['new', slot, doc])       # fresh instance constructed with the contents
             ops.append(['reload', slot, doc])    # load_file on the EXISTING instance of the slot (fresh one if none)
-        ops.append(['load', slot, 0])            # fresh instance without contents + load_file
+        for doc in range(len(DOCS)):
+            # fresh instance without contents + load_file of ONE shared path whose content is rewritten each time
+            ops.append(['load', slot, doc])
         ops.append(['process', slot])
     return ops
 
@@ -96,7 +98,12 @@ def run_history(ops):
                 elif kind in ('load', 'reload'):
                     if kind == 'load' or slot not in slots:
                         slots[slot] = DznJsonAst()
-                    ret = slots[slot].load_file(doc_file(op[2]))
+                    path = doc_file(op[2])
+                    if kind == 'load':
+                        shared = os.path.join(os.path.dirname(path), 'shared.json')
+                        shutil.copyfile(path, shared)
+                        path = shared
+                    ret = slots[slot].load_file(path)
                     if ret is not slots[slot]:
                         out.append(('load_file-not-fluent', f'op {i}'))
                     slotdoc[slot] = op[2]
@@ -240,7 +247,7 @@ def explore(ctx):
     bfs_part = Partial()
     pruned_bfs(nslots, 7 if ctx.thorough else 5, bfs_part)
     ctx.merge(bfs_part)
-    ctx.rule = (f'all histories over {len(ops)} operations ({nslots} slots x (3 docs x new/reload + load + process)) of '
+    ctx.rule = (f'all histories over {len(ops)} operations ({nslots} slots x (3 docs x new/reload/load-through-a-shared-rewritten-path + process)) of '
                 f'length 1..{depth}, each replayed on fresh parser objects (un-pruned); plus a BFS pruned on the '
                 'canonical state (per slot: document, normal form of accumulated contents; class/module globals) '
                 f'to depth {7 if ctx.thorough else 5}; non-trivial = history contains a process()')
